@@ -573,7 +573,7 @@ def run(ck):
     ]
     ck.rule = ("unit: random operation sequences (enqueue sizes 8..249 equal / two sizes / mixed; next; confirm oldest outstanding; reset-to-waiting; queries; release) for N in {1,2,3,4,8}; "
                "trace: enqueue / activate / acknowledge prefixes / connection loss (peer close, write error, STOPDT+close) / reconnect, k in {1,2,3,12}; non-trivial = distinct script")
-    ck.explanation = "PARTIAL: (1) event-log theorems for every history (acknowledged never resent, loss re-arms, ids unique); (2) the byte-offset MessageQueue ring (literal transcription, run against the C functions on every run) is proved for every ring size and every history: no stale header read, entries inside the arena, enqueue displaces only a prefix of the oldest entries, getNextWaiting = oldest waiting entry, confirmation safe for every (pointer, id) pair ever handed out. (3) the ring operations are proved to BE the list operations of the server model under the abstraction that forgets offsets (C06_refine_*), displacement of the D oldest entries being the only difference. (4) the capacity clause is proved on the ring (Cs104/MqCapacity.v, C06_capacity_equal_sizes): for every ring size n, ASDU size z and history with equal-size ASDUs an enqueue displaces an entry only if at least n entries remain, and then exactly one; the oracle additionally evaluates it on the queue functions and on the real server in both group modes. (5) COMPOSITION (Cs104/SchedMq.v, C06_sched_mq_*): sendNextLowPriorityASDU, the release loop of checkSequenceNumber, enqueue and the re-arming at the end of a connection, transcribed with the literal ring and the remembered (id, offset) pairs, are the list versions of the server model for every ring state that represents the list (no fault, same frames, same connection; an enqueue first displaces the D oldest entries); sendWaitingASDUs on both rings = send_waiting of the model; the ring-backed functions are run against the real static functions on every run. NOT stated: one trace theorem over whole server histories with the rings in place."
+    ck.explanation = "PARTIAL: (1) event-log theorems for every history (acknowledged never resent, loss re-arms, ids unique); (2) the byte-offset MessageQueue ring (literal transcription, run against the C functions on every run) is proved for every ring size and every history: no stale header read, entries inside the arena, enqueue displaces only a prefix of the oldest entries, getNextWaiting = oldest waiting entry, confirmation safe for every (pointer, id) pair ever handed out. (3) the ring operations are proved to BE the list operations of the server model under the abstraction that forgets offsets (C06_refine_*), displacement of the D oldest entries being the only difference. (4) the capacity clause is proved on the ring (Cs104/MqCapacity.v, C06_capacity_equal_sizes): for every ring size n, ASDU size z and history with equal-size ASDUs an enqueue displaces an entry only if at least n entries remain, and then exactly one; the oracle additionally evaluates it on the queue functions and on the real server in both group modes. (5) COMPOSITION (Cs104/SchedMq.v, C06_sched_mq_*): sendNextLowPriorityASDU, the release loop of checkSequenceNumber, enqueue and the re-arming at the end of a connection, transcribed with the literal ring and the remembered (id, offset) pairs, are the list versions of the server model for every ring state that represents the list (no fault, same frames, same connection; an enqueue first displaces the D oldest entries); sendWaitingASDUs on both rings = send_waiting of the model; the ring-backed functions are run against the real static functions on every run. (6) HISTORIES (Cs104/SchedHist.v, C06_sched_history): every sequence of scheduler operations with both rings in place never faults and is step by step a history of the model's scheduler for some displacement / refusal choices; that machine (rstep) is what the sch scripts run against the real functions. Not re-stated with rings: handleMessage and the timers."
     ck.coq("C06")
     h = harness()
     try:
